@@ -31,6 +31,12 @@ class C14(Check):
         "a ui.json refused at construction (value None for a required parameter, unknown uuid text) has "
         "nothing to round-trip: counted under construct-rejected:*",
         "integers are limited to [-2^63, 2^63] as in the design",
+        "guards (lifted in the 10 % of programs with allow_known, failures then carry a /known:<tag> suffix): "
+        "dhdata-optional-none = the 'optional': None member that templates.drillhole_group_data stores is dropped; "
+        "group-owner-propagation = a group member whose enabled differs from the enabled of the form carrying "
+        "groupOptional (owner enabled, or groupOptional false) is moved out of the group",
+        "a string ending in .geoh5 is only generated as a path inside the scratch directory (the reader opens, "
+        "and thereby creates, such files)",
     ]
 
     def strategy(self, tier):
